@@ -177,7 +177,25 @@ func (c *Ctx) ruleR04b(rule string) {
 	}
 	for _, call := range ssax.Calls(fn) {
 		cl, ok := call.(*ssa.Call)
-		if !ok || cl.Call.StaticCallee() == nil || cl.Call.StaticCallee().Name() != "EvaluateNode" {
+		if !ok || cl.Call.StaticCallee() == nil {
+			continue
+		}
+		nodeArg := ssa.Value(nil)
+		if cl.Call.StaticCallee().Name() == "EvaluateNode" {
+			nodeArg = cl.Call.Args[1]
+		} else if h := cl.Call.StaticCallee(); c.P.InLib(h) && len(h.Blocks) > 0 && !cl.Call.IsInvoke() {
+			// a helper of Evaluate that evaluates the node it is handed
+			for _, k := range ssax.Calls(h) {
+				if kc, ok := k.(*ssa.Call); ok && kc.Call.StaticCallee() != nil && kc.Call.StaticCallee().Name() == "EvaluateNode" {
+					for i, hp := range h.Params {
+						if kc.Call.Args[1] == ssa.Value(hp) && i < len(cl.Call.Args) {
+							nodeArg = cl.Call.Args[i]
+						}
+					}
+				}
+			}
+		}
+		if nodeArg == nil {
 			continue
 		}
 		good := false
@@ -188,7 +206,7 @@ func (c *Ctx) ruleR04b(rule string) {
 					good = true
 				}
 			}
-			if !isExtractOf(cl.Call.Args[1], parse, 0) {
+			if !isExtractOf(nodeArg, parse, 0) {
 				good = false
 			}
 		}
